@@ -461,6 +461,7 @@ type wFramer struct {
 	buf    []byte
 	bad    error
 	frames int
+	max    uint32 // largest frame accepted (0: what the package itself accepts, plus slack)
 }
 
 // feed returns the complete frame bodies (type byte first) contained in the stream so far.
@@ -469,7 +470,11 @@ func (f *wFramer) feed(b []byte) [][]byte {
 	var out [][]byte
 	for f.bad == nil && len(f.buf) >= 4 {
 		n := binary.BigEndian.Uint32(f.buf)
-		if n == 0 || n > 256*1024+1024 {
+		lim := uint32(256*1024 + 1024)
+		if f.max > 0 {
+			lim = f.max
+		}
+		if n == 0 || n > lim {
 			f.bad = fmt.Errorf("wire: frame %d has length %d", f.frames, n)
 			break
 		}
